@@ -1141,7 +1141,9 @@ func (m *model) wasSet(key, st int, grew bool) {
 	m.deleted[key] = false
 	m.oversize[key] = false
 	if m.cfg.LRU && m.sizeIfCached(key) > m.cfg.Cap {
-		m.st[key] = sNo
+		// (whether an implementation keeps such an entry is not the property's business: the key is "maybe cached",
+		// and whatever is served for it must equal the store)
+		m.st[key] = sMaybe
 		m.oversize[key] = true
 		m.wt[key] = false
 		m.othersMayBeGone(key)
@@ -1373,9 +1375,6 @@ func (j *judge) one(r *opRec) bool {
 	switch {
 	case obs == obsCached && m.st[key] == sNo && m.deleted[key]:
 		res.Failf("delete-leaves-cache-entry", "the key was deleted successfully and not written since, yet the next operation found it in the cache :: %s", r)
-		return false
-	case obs == obsCached && m.st[key] == sNo && m.oversize[key]:
-		res.Failf("oversize-value-cached", "the last value written for the key is bigger than the LRU capacity (%d), so it cannot be in the cache, yet the operation found the key there :: %s", h.cfg.Cap, r)
 		return false
 	case obs == obsCached && m.st[key] == sNo:
 		res.Failf("phantom-cache-entry", "no operation accepted before this one can have put the key into the cache, yet the operation found it there :: %s", r)
